@@ -101,12 +101,17 @@ def layoutStep (l : LState) (tag : Nat) (fs : List Ty) (ans : Bool) : LState :=
       else { out := out ++ [.boxed (.int :: fs)], permit := false, pending := none }
     | _ => { out := out ++ [.boxed (.int :: fs)], permit := false, pending := none }
 
+/-- The query l.597-600: only a variant with exactly one field consults the decision. -/
+def ansOf (p : Ty → Bool) : List Ty → Bool
+  | [t] => p t
+  | _ => false
+
 /-- The loop with a fixed answer function (used by the theorems; the specialiser below threads
 the changing `St`). -/
 def layoutLoop (p : Ty → Bool) : List (List Ty) → Nat → LState → LState
   | [], _, l => l
   | fs :: rest, tag, l =>
-    layoutLoop p rest (tag + 1) (layoutStep l tag fs (match fs with | [t] => p t | _ => false))
+    layoutLoop p rest (tag + 1) (layoutStep l tag fs (ansOf p fs))
 
 def layoutOf (p : Ty → Bool) (variants : List (List Ty)) : List VRepr :=
   (layoutLoop p variants 0 {}).out
@@ -131,7 +136,7 @@ def demandTy (env : Env) : Nat → St → Ty → Option St
         let (st3, l, _) ← vs.foldlM (fun (acc : St × LState × Nat) fs => do
             let (s, l, tag) := acc
             let s' ← fs.foldlM (fun s t => demandTy env fuel s t) s
-            let ans := match fs with | [t] => typePermit s' t | _ => false
+            let ans := ansOf (typePermit s') fs
             some (s', layoutStep l tag fs ans, tag + 1)) (st2, ({} : LState), 0)
         some { st3 with defs := (n, .enum l.out) :: st3.defs }
       | .closure sig => do
